@@ -114,15 +114,24 @@ def classify_exception(e):
     return 'Other' if name not in ERR_KINDS else name
 
 
+_TIMEOUTS = [0]
+
+
 def guarded(fn, timeout_s=10):
-    """Run fn() under an alarm; return ('ok', value) or ('err', kind, message)."""
+    """Run fn() under an alarm; return ('ok', value) or ('err', kind, message).
+    After 5 time-outs in one process the allowance drops to 1 s so that a non-terminating
+    implementation cannot stall a whole run."""
     old = signal.signal(signal.SIGALRM, _alarm)
+    if _TIMEOUTS[0] >= 5:
+        timeout_s = 1
     signal.alarm(timeout_s)
     try:
         return ('ok', fn())
     except BaseException as e:  # noqa
         if isinstance(e, (KeyboardInterrupt, SystemExit)):
             raise
+        if isinstance(e, CaseTimeout):
+            _TIMEOUTS[0] += 1
         return ('err', classify_exception(e), str(e)[:200])
     finally:
         signal.alarm(0)
@@ -608,7 +617,7 @@ def run_property(prop, tier='quick', seed=0, replay=None):
             'axioms': pr['axioms'],
             'forbidden_words_found': words,
             'evaluations': len(cases),
-            'traces_validated_against_impl': len(cases) - len(errors) * getattr(prop, 'SHARD', 300),
+            'traces_validated_against_impl': 0 if errors else len(cases),
             'distinct_nontrivial': len(nontrivial),
             'rule': prop.RULE,
             'samples': samples,
